@@ -202,6 +202,23 @@ Definition check_during (v : tval) : bool :=
   let s := during_model v in
   nat_list_eqb (a_disposed (fst s)) (map vnat (vl (vnth 4 v))) && nat_list_eqb (a_live (fst s)) (map vnat (vl (vnth 5 v))).
 
+(* ---- kind 15: a periodic stats report parked in its upload while Stop runs the final report ---- *)
+(* [15; swap; a; b; fail_first; obs uploaded; obs local (sign, abs)] : add a; reporter 1 takes and parks in its upload; add b;
+   reporter 2 (the final report) runs completely; reporter 1 finishes (failing if fail_first); reporter 3 flushes *)
+Definition stats_model (v : tval) : ksh * list kpc :=
+  let a := Z.of_N (vn (vnth 2 v)) in let b := Z.of_N (vn (vnth 3 v)) in
+  run _ _ (kstep (vbool (vnth 1 v))) (kinit, [KAdd [a; b]; KTake (vbool (vnth 4 v)); KTake false; KTake false])
+      [0; 1; 0; 2; 2; 2; 1; 1; 3; 3; 3].
+Definition check_stats (v : tval) : bool :=
+  let s := stats_model v in
+  Z.eqb (k_up (fst s)) (dec_z (vnth 5 v)) && Z.eqb (k_cnt (fst s)) (dec_z (vnth 6 v)).
+
+(* ---- kind 16: Close of a bridge while the statistics backend does not answer ---- *)
+(* [16; guarded; obs_close_returned] *)
+Definition check_hung (v : tval) : bool :=
+  let s := run _ _ (lstep (vbool (vnth 1 v))) (linit, [LSpawn; LReport; LTimer; LBackend]) [0; 1; 0; 2; 0; 0; 0; 1] in
+  Bool.eqb (match nth_error (snd s) 0 with Some LDone => true | _ => false end) (vbool (vnth 2 v)).
+
 Definition check (v : tval) : bool :=
   match vnat (vnth 0 v) with
   | 0 => check_dispose v
@@ -219,6 +236,8 @@ Definition check (v : tval) : bool :=
   | 12 => check_timeout v
   | 13 => check_during v
   | 14 => check_throttle v
+  | 15 => check_stats v
+  | 16 => check_hung v
   | _ => false
   end.
 
@@ -242,5 +261,6 @@ Definition predict (v : tval) : tval :=
   | 10 => vnats [i_released (fst (overlap_model v))]
   | 11 => let s := rm_run (map dec_rmop (vl (vnth 1 v))) in VL [vnats (rm_log s); vnats (rm_results s)]
   | 13 => let s := during_model v in VL [vnats (a_disposed (fst s)); vnats (a_live (fst s))]
+  | 15 => let s := stats_model v in VL [venc_z (k_up (fst s)); venc_z (k_cnt (fst s))]
   | _ => VL []
   end.
